@@ -240,7 +240,7 @@ func (c13) Run(x *Exec, scn any) {
 		// of the writer phase, followed by a second wave of writes.
 	}
 	res := x.Sim.Run(nil)
-	if res.Stuck || res.StepCap {
+	if len(x.clientsStuck()) > 0 || res.StepCap {
 		o.violate("blocked", "C13/write-blocked", "writes did not finish: %+v", res)
 	}
 	for r := 0; r < s.Restarts; r++ {
@@ -440,7 +440,7 @@ func (c19) Run(x *Exec, scn any) {
 	spawnWriters(x, s, a, &writes)
 	maxOpen := 0
 	res := x.Sim.Run(nil)
-	if res.Stuck || res.StepCap {
+	if len(x.clientsStuck()) > 0 || res.StepCap {
 		o.violate("blocked", "C19/write-blocked", "writes did not finish under faults: %+v", res)
 	}
 	if n := x.FS.OpenCount(); n > maxOpen {
@@ -458,7 +458,7 @@ func (c19) Run(x *Exec, scn any) {
 		final.Panic, final.Returned = pv, pv == nil
 	})
 	res = x.Sim.Run(nil)
-	if res.Stuck || res.StepCap {
+	if len(x.clientsStuck()) > 0 || res.StepCap {
 		o.violate("blocked", "C19/write-blocked", "write after the outage did not finish: %+v", res)
 	}
 	if n := x.FS.OpenCount(); n > maxOpen {
@@ -565,7 +565,7 @@ func runStaticFailing(x *Exec, s *RollScn) {
 	}
 	clockEnv(x, s, new(int))
 	res := x.Sim.Run(nil)
-	if res.Stuck || res.StepCap {
+	if len(x.clientsStuck()) > 0 || res.StepCap {
 		o.violate("blocked", "C19/blocked-on-failing-target/"+s.Static, "log calls on a failing target did not return: %+v", res)
 	}
 	for _, t := range x.Sim.Died() {
@@ -693,7 +693,7 @@ func (c14) Run(x *Exec, scn any) {
 		})
 	}
 	res := x.Sim.Run(nil)
-	if res.Stuck || res.StepCap {
+	if len(x.clientsStuck()) > 0 || res.StepCap {
 		o.violate("blocked", "C14/blocked", "run did not finish: %+v", res)
 	}
 	// make sure at least one rotation (hence one cleanup) happens after all clock decisions
